@@ -46,6 +46,12 @@ Chains == {Bin(k1, Bin(k2, Bin(k1, Hole, Hole), Hole), Hole) : k1 \in LazyK, k2 
           \cup {If(Hole, Val(I(1)), If(Hole, Val(I(2)), If(Hole, Val(I(3)), Val(I(4)))))}
           \* a lazy operator whose left operand is a special value: only None decides `==` / `!=` alone, only a Bool `and` / `or`
           \cup {Bin(k, Val(v), Hole) : k \in {"eq", "neq", "and", "or"}, v \in {VFloat(FNaN), VFloat(FZero(-1)), VNone, VStr(<<>>), I(0)}}
+          \* structurally IDENTICAL sub-expressions: both branches of an `if` (the condition is still evaluated), both operands
+          \* of an operator (a non-cacheable function is still invoked once per occurrence)
+          \cup {If(Hole, Val(I(1)), Val(I(1))), If(Hole, Call(S("q"), Val(I(1))), Call(S("q"), Val(I(1)))), If(Hole, Val(VBool(TRUE)), Val(VBool(FALSE))),
+                If(Hole, Val(VBool(FALSE)), Val(VBool(TRUE)))}
+          \cup {Bin(k, Call(S("q"), Val(I(1))), Call(S("q"), Val(I(1)))) : k \in {"eq", "neq", "add", "sub", "contains", "gt"}}
+          \cup {Bin(k, Call(S("q"), Val(VBool(TRUE))), Call(S("q"), Val(VBool(TRUE)))) : k \in {"and", "or"}}
 Shapes == LET base == UNION {T(n) : n \in 1..L} IN
           IF Wrap THEN base \cup Chains \cup UNION {Wrapped(t) : t \in UNION {T(n) : n \in 1..(IF L > 2 THEN 2 ELSE L)}}
                        \cup {Bin("and", w, Hole) : w \in Wrapped(Hole)} \cup {Bin("eq", Hole, w) : w \in Wrapped(Hole)}
@@ -128,7 +134,8 @@ MachineRefinesDen ==
 LogWithinDen ==
   (ms.mode.m # "idle") => IsPrefix(gs.calls, Den(prog, Env, EmptySt(Env)).st.calls)
 \* exactly-once: no probe is invoked twice
-AtMostOnceEach == \A i, j \in 1..Len(gs.calls) : (i # j) => gs.calls[i].f # gs.calls[j].f
+\* (probes only: the shapes with structurally identical operands call the non-cacheable q once per occurrence on purpose)
+AtMostOnceEach == \A i, j \in 1..Len(gs.calls) : (i # j /\ gs.calls[i].f[1] = 112) => gs.calls[i].f # gs.calls[j].f
 LogAppendOnly == [][ms.mode.m # "idle" => IsPrefix(gs.calls, gs'.calls)]_vars
 Termination == <>Done
 
